@@ -148,7 +148,6 @@ class ScatteringParams:
         )
 
     @staticmethod
-    @lru_cache
     def for_isotope(isotope: str) -> ScatteringParams:
         """Return the scattering parameters for the given element / isotope.
 
@@ -163,10 +162,11 @@ class ScatteringParams:
         :
             Neutron scattering parameters.
         """
-        with _open_bundled_parameters_file('scattering_parameters.csv') as f:
-            if line_remainder := _find_line_with_isotope(isotope, f):
-                return ScatteringParams._parse_line(isotope, line_remainder)
-        raise ValueError(f"No entry for element / isotope '{isotope}'")
+        # Only the line of the table is cached, every call builds new variables
+        # so that callers cannot modify the values seen by later calls.
+        return ScatteringParams._parse_line(
+            isotope, _load_scattering_params_line(isotope)
+        )
 
     @staticmethod
     def _parse_line(isotope: str, line: str) -> ScatteringParams:
@@ -198,6 +198,14 @@ def _find_line_with_isotope(isotope: str, io: TextIO) -> str | None:
         if name == isotope:
             return rest
     return None
+
+
+@lru_cache
+def _load_scattering_params_line(isotope: str) -> str:
+    with _open_bundled_parameters_file('scattering_parameters.csv') as f:
+        if line_remainder := _find_line_with_isotope(isotope, f):
+            return line_remainder
+    raise ValueError(f"No entry for element / isotope '{isotope}'")
 
 
 def _load_atomic_weight(element: str) -> tuple[int, sc.Variable | None]:
